@@ -1,0 +1,26 @@
+//go:build verif
+
+// Package verifhook re-exports helpers of mvdan.cc/sh/v3/internal for the external
+// verification harness, which cannot import an internal package. Built only with -tags verif.
+package verifhook
+
+import (
+	"mvdan.cc/sh/v3/internal"
+	"mvdan.cc/sh/v3/pattern"
+)
+
+func IndexedMax(list []string, indexes []int) int { return internal.IndexedMax(list, indexes) }
+
+func SetIndexedElem(list []string, indexes []int, k int, val string) ([]string, []int) {
+	return internal.SetIndexedElem(list, indexes, k, val)
+}
+
+func DeleteIndexedElem(list []string, indexes []int, k int) ([]string, []int) {
+	return internal.DeleteIndexedElem(list, indexes, k)
+}
+
+func CanonicalIndexes(indexes []int) []int { return internal.CanonicalIndexes(indexes) }
+
+func ExtendedPatternMatcher(pat string, mode pattern.Mode) (func(string) bool, error) {
+	return internal.ExtendedPatternMatcher(pat, mode)
+}
